@@ -8,7 +8,7 @@ from . import _sched as S
 from .C02 import WITNESSES
 
 PROP = "C03"
-GEN_REGIONS: List[str] = []
+GEN_REGIONS: List[str] = ["Sched", "Utils"]
 THEOREMS = {
     "SpecKitV.Lemmas.SchedLtf": ["ltfStep_rL", "ltfStep_bin", "ltfStep_bmin_slack", "walk_first", "walk_below", "walk_stepping",
                                  "ltf_walk_ge_fmin", "ltf_walk_nonempty"],
